@@ -23,9 +23,13 @@ vars == <<pops, progs, pars, targets, effects, comps, ctargets, hist, obs>>
 Content == [pops |-> pops, progs |-> progs, pars |-> pars, targets |-> targets, effects |-> effects, comps |-> comps, ctargets |-> ctargets]
 Init == /\ pops = Pops0 /\ progs = Progs0 /\ pars = Pars0 /\ targets = Targets0 /\ effects = Effects0
         /\ comps = Comps0 /\ ctargets = CTargets0 /\ hist = <<>> /\ obs = ""
-Record(op, arg) == /\ hist' = Append(hist, <<op, arg>>)
+\* The removal operations of the library take the code name or the full name (label) of their argument: the same abstract action, two
+\* concrete calls.  The history records which one (by), and the harness makes the call that way.
+Bys == {"code", "label"}
+RecordBy(op, arg, by) == /\ hist' = Append(hist, <<op, arg, by>>)
                    /\ obs' = ToJson([hist |-> hist', content |-> [pops |-> pops', progs |-> progs', pars |-> pars', targets |-> targets', effects |-> effects',
                                                                     comps |-> comps', ctargets |-> ctargets']])
+Record(op, arg) == RecordBy(op, arg, "code")
 Same == UNCHANGED <<pops, progs, pars, targets, effects, comps, ctargets>>
 Copy == "copy" \in Ops /\ Same /\ Record("copy", "")
 Sample0 == /\ "sample0" \in Ops /\ \A k \in 1..Len(hist) : hist[k][1] # "sample0"      \* (an object can be sampled once)
@@ -40,7 +44,7 @@ RemovePop(p) == /\ "remove_pop" \in Ops /\ p \in pops /\ Cardinality(pops) > 1
                 /\ pops' = pops \ {p}
                 /\ targets' = {t \in targets : t[2] # p}
                 /\ effects' = {e \in effects : e[2] # p}
-                /\ UNCHANGED <<progs, pars, comps, ctargets>> /\ Record("remove_pop", p)
+                /\ UNCHANGED <<progs, pars, comps, ctargets>> /\ (\E by \in Bys : RecordBy("remove_pop", p, by))
 AddProg == /\ "add_program" \in Ops /\ NewProg \notin progs
            /\ progs' = progs \cup {NewProg} /\ UNCHANGED <<pops, pars, targets, effects, comps, ctargets>> /\ Record("add_program", NewProg)
 RemoveProg(g) == /\ "remove_program" \in Ops /\ g \in progs /\ Cardinality(progs) > 1
@@ -48,11 +52,11 @@ RemoveProg(g) == /\ "remove_program" \in Ops /\ g \in progs /\ Cardinality(progs
                  /\ targets' = {t \in targets : t[1] # g}
                  /\ effects' = {e \in effects : e[3] # g}
                  /\ ctargets' = {t \in ctargets : t[1] # g}
-                 /\ UNCHANGED <<pops, pars, comps>> /\ Record("remove_program", g)
+                 /\ UNCHANGED <<pops, pars, comps>> /\ (\E by \in Bys : RecordBy("remove_program", g, by))
 RemovePar(x) == /\ "remove_par" \in Ops /\ x \in pars
                 /\ pars' = pars \ {x}
                 /\ effects' = {e \in effects : e[1] # x}
-                /\ UNCHANGED <<pops, progs, targets, comps, ctargets>> /\ Record("remove_par", x)
+                /\ UNCHANGED <<pops, progs, targets, comps, ctargets>> /\ (\E by \in Bys : RecordBy("remove_par", x, by))
 \* adding a targetable parameter (one of the framework that the object does not list: ProgramSet.add_par "when an existing project has a
 \* change made to the framework"): it has no effects yet, nothing else changes, and the object can still be exported and read back
 AddPar(x) == /\ "add_par" \in Ops /\ x \in Pars0 \ pars
@@ -62,7 +66,7 @@ AddPar(x) == /\ "add_par" \in Ops /\ x \in Pars0 \ pars
 RemoveComp(c) == /\ "remove_comp" \in Ops /\ c \in comps
                  /\ comps' = comps \ {c}
                  /\ ctargets' = {t \in ctargets : t[2] # c}
-                 /\ UNCHANGED <<pops, progs, pars, targets, effects>> /\ Record("remove_comp", c)
+                 /\ UNCHANGED <<pops, progs, pars, targets, effects>> /\ (\E by \in Bys : RecordBy("remove_comp", c, by))
 AddComp(c) == /\ "add_comp" \in Ops /\ c \in Comps0 \ comps
               /\ comps' = comps \cup {c}
               /\ UNCHANGED <<pops, progs, pars, targets, effects, ctargets>> /\ Record("add_comp", c)
